@@ -41,3 +41,21 @@ macro_rules! verif_lock_scope {
 macro_rules! verif_lock_scope {
     ($($t:tt)*) => {};
 }
+
+/// Ends a scope declared with `verif_lock_scope!` early (the real guard was a temporary that is
+/// already gone).  Expands to nothing without `--cfg zipora_verif`.
+#[cfg(zipora_verif)]
+#[macro_export]
+#[doc(hidden)]
+macro_rules! verif_lock_release {
+    ($name:ident) => {
+        drop($name);
+    };
+}
+
+#[cfg(not(zipora_verif))]
+#[macro_export]
+#[doc(hidden)]
+macro_rules! verif_lock_release {
+    ($($t:tt)*) => {};
+}
